@@ -1,10 +1,15 @@
 From Coq Require Import List String Ascii ZArith Bool Arith NArith.
 From GM Require Corr.AnaCross.
-From GM Require Import Base.Result Facts.GoFacts Facts.Ana Model.Enums Model.Fields Model.Classify Model.SqlTypes Sem.GoJson Sem.TsSem Sem.PgSem Sem.PgSim Sem.TsSim Model.TsTypes.
+From GM Require Import Base.Result Facts.GoFacts Facts.Ana Model.Enums Model.Fields Model.Classify Model.SqlTypes Sem.GoJson Sem.TsSem Sem.PgSem Sem.PgSim Sem.TsSim Model.TsTypes Model.TsGen Base.StrOrd.
 Import ListNotations.
 Local Open Scope string_scope.
 
+(** the declaration list of the real TypeScript generator, read declaration by declaration *)
+Record tobs := { to_id : string; to_decls : list (string * tdecl) }.
+Inductive ts_obs := TsOk (l : list tobs) | TsDiag | TsCrash | TsSkip.
+
 Record c3_case := {
+  c3_tsl : ts_obs;
   c3_prog : prog; c3_enums : list enum; c3_ana : ana_obs;
   c3_env : tenv;                       (* parsed from the real TypeScript file *)
   c3_docs : list (gty * json)          (* documents written by the real Go encoder *)
@@ -64,10 +69,70 @@ Definition chk_prop (c : c3_case) : bool :=
                         | Ok t => inhabitsb (c3_env c) (2 * json_depth (snd tj) + 8) t (snd tj)
                         | _ => false end) (c3_docs c).
 
+(** * The traversal model (Model/TsGen.v) against the list of the real generator *)
+Fixpoint trefs (t : texpr) : list string :=
+  match t with
+  | TRef n => [n]
+  | TNullable t' | TArr t' => trefs t'
+  | TRecord k v => (trefs k ++ trefs v)%list
+  | _ => []
+  end.
+
+Definition decl_refs (d : tdecl) : list string :=
+  match d with
+  | TDAlias t | TDTuple _ t => trefs t
+  | TDBrand _ | TDEnum _ | TDEmptyRecord => []
+  | TDInterface fields => flat_map (fun f => trefs (snd f)) fields
+  | TDUnion alts => flat_map (fun a => trefs (snd a)) alts
+  end.
+
+Definition canon_strs (l : list string) : list string := Base.StrOrd.sort_str (Model.Enums.dedup_str l).
+
+Fixpoint strs_eqb (a b : list string) : bool :=
+  match a, b with
+  | [], [] => true
+  | x :: a', y :: b' => String.eqb x y && strs_eqb a' b'
+  | _, _ => false
+  end.
+
+Definition ts_model (c : c3_case) : result (list tsdecl) :=
+  ts_types (c3_prog c) (ao_nodes (c3_ana c)) 16 (ao_source (c3_ana c)).
+
+Fixpoint tobs_list_eqb (a : list tsdecl) (b : list tobs) : bool :=
+  match a, b with
+  | [], [] => true
+  | x :: a', y :: b' =>
+      String.eqb (td_id x) (to_id y)
+      && strs_eqb [td_name x] (map fst (to_decls y))
+      && strs_eqb (canon_strs (filter (fun m => negb (ts_builtin m)) (td_mentions x))) (canon_strs (flat_map (fun d => decl_refs (snd d)) (to_decls y)))
+      && tobs_list_eqb a' b'
+  | _, _ => false
+  end.
+
+(** same declarations, same order, same identifiers, same names mentioned; refusals included *)
+Definition ts_model_ok (c : c3_case) : bool :=
+  match c3_tsl c, ts_model c with
+  | TsSkip, _ => true
+  | TsOk l, Ok ds => tobs_list_eqb ds l
+  | TsDiag, Diag _ => true
+  | TsCrash, Crash _ => true
+  | _, _ => false
+  end.
+
+(** the conclusion of the closure theorem on the observed list, under its premises *)
+Definition ts_prop_ok (c : c3_case) : bool :=
+  match c3_tsl c with
+  | TsOk l =>
+      negb (shapes_ok (ao_nodes (c3_ana c)) && no_self_alias (c3_prog c) (ao_nodes (c3_ana c)) 16)
+      || let names := flat_map (fun o => map fst (to_decls o)) l in
+         forallb (fun o => forallb (fun m => existsb (String.eqb m) names) (flat_map (fun d => decl_refs (snd d)) (to_decls o))) l
+  | _ => true
+  end.
+
 Section Generic.
   Context {A : Type} (f : A -> bool).
   Fixpoint mism_from (n : N) (cases : list A) : list N :=
     match cases with [] => [] | c :: r => if f c then mism_from (N.succ n) r else n :: mism_from (N.succ n) r end.
 End Generic.
-Definition mismatches := mism_from (fun c => AnaCross.ana_cross_e (c3_prog c) (c3_enums c) (c3_ana c) && chk_model c) 0%N.
-Definition prop_failures := mism_from chk_prop 0%N.
+Definition mismatches := mism_from (fun c => AnaCross.ana_cross_e (c3_prog c) (c3_enums c) (c3_ana c) && chk_model c && ts_model_ok c) 0%N.
+Definition prop_failures := mism_from (fun c => chk_prop c && ts_prop_ok c) 0%N.
